@@ -58,7 +58,7 @@ fn no_secp() -> &'static Secp256k1 {
 /// Same seed: the message created for (id, switch) makes check_output recover EXACTLY (id, switch)
 /// for every identifier with a documented depth (0..=4), both modes, every amount.
 #[kani::proof]
-#[kani::unwind(22)]
+#[kani::unwind(36)]
 #[kani::stub(alloc::fmt::format, stub_format)]
 fn c20_proof_message_roundtrip() {
 	let k = KMock;
@@ -88,7 +88,7 @@ fn c20_proof_message_roundtrip() {
 /// Arbitrary 20-byte messages: whatever check_output accepts is what the message encodes, and a
 /// message with a non-zero prefix or an unknown switch byte is never accepted.
 #[kani::proof]
-#[kani::unwind(22)]
+#[kani::unwind(36)]
 #[kani::stub(alloc::fmt::format, stub_format)]
 fn c20_proof_message_foreign() {
 	let k = KMock;
@@ -108,7 +108,7 @@ fn c20_proof_message_foreign() {
 
 /// Legacy builder (pre-HF1 outputs): depth-3 paths, regular switch commitments.
 #[kani::proof]
-#[kani::unwind(22)]
+#[kani::unwind(36)]
 #[kani::stub(alloc::fmt::format, stub_format)]
 fn c20_legacy_proof_message_roundtrip() {
 	let k = KMock;
